@@ -306,7 +306,7 @@ def st_cases():
 
 def plan(tier, seed):
     if tier == "quick":
-        specs = [{"kind": "tables", "examples": 14, "seed": seed * 1000 + k} for k in range(14)]
+        specs = [{"kind": "tables", "examples": 40, "seed": seed * 1000 + k} for k in range(16)]
         specs += [{"kind": "files", "files": [f]} for f in corpus.SMALL[:8]]
     else:
         specs = [{"kind": "tables", "examples": 320, "seed": seed * 1000 + k} for k in range(16)]
